@@ -23,6 +23,8 @@ def jobs(tier):
         mk('C02', 'accessor_timeout_in_handler', S.accessor_timeout_in_handler()),
         mk('C02', 'warm_other_bus/AB/idle_gap', S.warm_other_bus_during_await(('A', 'B'), gap='3/2')),
         mk('C02', 'recur_then_other', S.recur_then_other()),
+        mk('C02', 'cross_dispatch_after/idle_gap', S.cross_dispatch_after('idle_gap')),
+        mk('C02', 'cross_dispatch_after/recursion', S.cross_dispatch_after('recursion')),
         mk('C02', 'cross_bus_await_into_sync_only_event', S.cross_bus_await_into_sync_only_event()),
         mk('C02', 'drain/BA', S.drain(('B', 'A')), witnesses=('fifo inversion',)),
         mk('C02', 'fw/fanin', S.forward_chain(3, topo='fanin', second_event=True)),
